@@ -61,7 +61,7 @@ PROPS["C13"] = {
         {"pkg": "types", "name": "VerifC13_Names", "quick": {}, "thorough": {},
          "bounds": {"replicas": "every n in [1,128] (fork)", "replica numbers": "symbolic 0<=i<j<n"}},
         {"pkg": "app", "name": "VerifC13_Scale1", "quick": {"d": 0}, "thorough": {"d": 1}, "native": False,
-         "bounds": {"initial replicas": "{1,2,3}", "scale target": "{-1,0,1,2,3,9,10,11}", "requests": 1, "templates": "command and description reference PC_REPLICA_NUM and a global variable"}},
+         "bounds": {"initial replicas": "{1,2,3}, each running / completed / in its restart back-off", "scale target": "{-1,0,1,2,3,9,10,11}", "requests": 1, "templates": "command and description reference PC_REPLICA_NUM and a global variable"}},
         {"pkg": "app", "name": "VerifC13_Scale2", "thorough": {"d": 0, "wall": 3000}, "native": False,
          "bounds": {"requests": 2}},
         {"pkg": "app", "name": "VerifC13_Scale100", "quick": {"d": 0}, "thorough": {"d": 0}, "native": False,
@@ -162,6 +162,8 @@ PROPS["C19"] = {
     "harnesses": [
         {"pkg": "api", "name": "VerifC19_Handlers", "quick": {}, "thorough": {}, "reach": ["end", "malformed"],
          "bounds": {"routes": "12 JSON routes", "runner outcome": "ok / error / error with partial result", "body": "well-formed / malformed"}},
+        {"pkg": "api", "name": "VerifC19_Query", "quick": {}, "thorough": {},
+         "bounds": {"route": "GET /project/state", "withMemory": "absent / true / false / 1 / yes / empty / 2 / 'true '"}},
         {"pkg": "api", "name": "VerifC19_Numeric", "quick": {}, "thorough": {}, "reach": ["end", "nonnumeric"],
          "bounds": {"path parameters": "every byte string over [-+0129x] of length <=3 (second: [-09x] len<=2)"}},
     ],
@@ -172,7 +174,7 @@ PROPS["C19"] = {
 PROPS["C03"] = {
     "harnesses": [
         {"pkg": "app", "name": "VerifC03_Daemon", "quick": {"d": 0}, "thorough": {"d": 1}, "native": False,
-         "bounds": {"N": 2, "scenario": "launched daemon with a shutdown command that succeeds / fails / runs into its timeout, plus an ordinary process; project shutdown"}},
+         "bounds": {"N": 2, "scenario": "daemon (already launched, or its launcher still running) with a shutdown command that succeeds / fails / runs into its timeout, plus an ordinary process; project shutdown"}},
         {"pkg": "app", "name": "VerifC03_AfterScale", "quick": {"d": 1}, "thorough": {"d": 2}, "native": False,
          "bounds": {"initial replicas": "{1,2}", "scale to": "{1,2,3,10}", "shutdown": "default or ordered, after the scale request has settled"}},
         {"pkg": "app", "name": "VerifC03_ManualStart", "quick": {"d": 1}, "thorough": {"d": 2}, "replay_repeat": 6,
@@ -336,7 +338,7 @@ _lv("C10", "ValidateAndSetDefaults for full-range ints and HTTP target strings; 
 _lv("C12", 'runningProcessesReverseDependencies for every dependency relation over 3 names x running subset x map order; real ordered ShutDownProject on chain / fan-in / fan-out / diamond with every subset already completed and every termination latency mix: no stop signal while a dependent that was running at shutdown is alive, shutdown completes, unrelated processes are stopped concurrently (witness); a dependent still Pending on process_completed when the shutdown begins does not block it.',
     'Stub Commander; N<=4.')
 
-_lv("C13", 'CalculateReplicaName for every count 1..128 (1..1100 thorough) and symbolic i<j<n; real ScaleProcess from 1-3 replicas (each running or already completed) to {-1,0,1,2,3,9,10,11} (two successive requests thorough), and two successive requests from {99,100,101} across the 99/100 name-width boundary: listed replicas, their state/info/log and rendered configuration equal a fresh load with replicas: n; survivors not restarted, removed terminated, added launched once, bystander untouched, n<1/unknown name rejected.',
+_lv("C13", 'CalculateReplicaName for every count 1..128 (1..1100 thorough) and symbolic i<j<n; real ScaleProcess from 1-3 replicas (each running, already completed, or waiting out a restart back-off) to {-1,0,1,2,3,9,10,11} (two successive requests thorough), and two successive requests from {99,100,101} across the 99/100 name-width boundary: listed replicas, their state/info/log and rendered configuration equal a fresh load with replicas: n; survivors not restarted, removed terminated, added launched once, bystander untouched, n<1/unknown name rejected.',
     'math.Log10 natively on the concrete count; loader pipeline executed for the reference; text/template natively; JSON snapshot intrinsic.')
 
 _lv("C14", 'ProcessConfig.Compare on two configurations with symbolic launch-relevant settings (executable/args derived by the real AssignProcessExecutableAndArgs): equal implies agreement on every launch-relevant field. Real UpdateProject: process a changed in one of 11 settings or unchanged, b kept or removed, c added or not, k untouched: configured set, status map, instances kept / relaunched once with the new configuration / terminated / launched.',
